@@ -10,17 +10,14 @@
   `D.internal.integral_bisection_search`.
 
   Findings (model over ℝ, integers unbounded):
-  * For every non-decreasing step cdf and `0 < p < 1` the result `r` is *a* `p`-quantile:
-    `cdf (r-1) ≤ p ≤ cdf r`, `min ≤ r`, and `r ≤ K` for every `K` with `p < cdf K`
-    (`default_inverse_cdf_quantile`).
-  * It is the SMALLEST `k` with `cdf k ≥ p` unless `cdf r = p` exactly.  A plateau at a level
-    different from `p` is harmless.  A plateau exactly at level `p` is not: the early exit
-    `f(ub) == z` of the bisection returns a later point of the plateau
-    (`default_inverse_cdf_smallest_plateau_counterexample`: cdf 1/4, 1/2, 1/2, 1 on 0,1,2,3 and
-    `p = 1/2` give 2, the smallest is 1).  So the recorded search finding is true of the model.
-  * Under "no plateau at level p" (`default_inverse_cdf_smallest`), in particular for a cdf that is
-    strictly increasing wherever it is strictly between 0 and 1
-    (`default_inverse_cdf_smallest_partial`), the result is the smallest `k`.
+  * For EVERY non-decreasing step cdf (plateaus included, also a plateau exactly at level `p`) and
+    `0 < p < 1` the result `r` is THE SMALLEST `k` with `cdf k ≥ p`:
+    `cdf (r-1) < p ≤ cdf r`, `min ≤ r`, and `r ≤ K` for every `K` with `p ≤ cdf K`
+    (`default_inverse_cdf_quantile`, `default_inverse_cdf_smallest`, `default_inverse_cdf_eq_of_smallest`).
+  * History: before the early exit `f(ub) == z` was removed from `integral_bisection_search` a plateau
+    exactly at level `p` made the bisection return a later point of the plateau (cdf 1/4, 1/2, 1/2, 1 on
+    0,1,2,3 and `p = 1/2` gave 2, the smallest is 1).  On that same input the generated code now
+    returns 1 (`integral_bisection_search_plateau`, `default_inverse_cdf_smallest_plateau`).
   * Fuel: the doubling loop needs `n+1` iterations when the quantile is `≤ 2^(n+1)` and the bisection
     at most `max (n+1) m + 2` when moreover `min ≥ -2^m`; the generated code runs both loops with
     `loopFuel = 20000` iterations, which covers every `u64`/`i64` argument type (`n = 63`, `m = 64`:
@@ -45,18 +42,36 @@ structure StepCdf (f : Int → ℝ) (B mn : Int) : Prop where
   mono : ∀ a b, B ≤ a → a ≤ b → f a ≤ f b
   below : ∀ k, B ≤ k → k < mn → f k = 0
 
-/-- What the default algorithm guarantees about its result `r` for a merely non-decreasing cdf. -/
+/-- What the default algorithm guarantees about its result `r` for a merely non-decreasing cdf:
+    `r` is the smallest `k ≥ B` with `cdf k ≥ p`. -/
 structure IsDefaultQuantile (f : Int → ℝ) (B mn : Int) (p : ℝ) (r : Int) : Prop where
   /-- the result is at least `min()` -/
   ge_min : mn ≤ r
   /-- `cdf r ≥ p` -/
   reach : p ≤ f r
-  /-- everything before `r` is `≤ p` (so `cdf (r-1) ≤ p ≤ cdf r`: `r` is a `p`-quantile) -/
-  before_le : ∀ j, B ≤ j → j < r → f j ≤ p
-  /-- `r` is the smallest `k` with `cdf k ≥ p`, or else `cdf r = p` exactly -/
-  smallest_or_exact : (∀ j, B ≤ j → j < r → f j < p) ∨ f r = p
-  /-- `r ≤ K` for every `K` whose cdf is strictly above `p` (e.g. `K = max()` when `p < 1`) -/
-  le_of_lt : ∀ K, B ≤ K → p < f K → r ≤ K
+  /-- everything before `r` is strictly below `p`: `r` is the SMALLEST `k` with `cdf k ≥ p` -/
+  smallest : ∀ j, B ≤ j → j < r → f j < p
+  /-- `r ≤ K` for every `K` whose cdf reaches `p` (e.g. `K = max()`) -/
+  le_of_le : ∀ K, B ≤ K → p ≤ f K → r ≤ K
+
+/-- everything before `r` is `≤ p` (so `cdf (r-1) ≤ p ≤ cdf r`: `r` is a `p`-quantile) -/
+theorem IsDefaultQuantile.before_le {f : Int → ℝ} {B mn : Int} {p : ℝ} {r : Int}
+    (Q : IsDefaultQuantile f B mn p r) : ∀ j, B ≤ j → j < r → f j ≤ p :=
+  fun j hj hjr => (Q.smallest j hj hjr).le
+
+/-- `r ≤ K` for every `K` whose cdf is strictly above `p` -/
+theorem IsDefaultQuantile.le_of_lt {f : Int → ℝ} {B mn : Int} {p : ℝ} {r : Int}
+    (Q : IsDefaultQuantile f B mn p r) : ∀ K, B ≤ K → p < f K → r ≤ K :=
+  fun K hK hlt => Q.le_of_le K hK hlt.le
+
+/-- the smallest `k ≥ B` with `cdf k ≥ p` is unique: anything satisfying `IsDefaultQuantile` equals it -/
+theorem IsDefaultQuantile.eq_of_smallest {f : Int → ℝ} {B mn : Int} {p : ℝ} {r k : Int}
+    (Q : IsDefaultQuantile f B mn p r) (hBmn : B ≤ mn) (hk : B ≤ k) (hreach : p ≤ f k)
+    (hsm : ∀ j, B ≤ j → j < k → f j < p) : r = k := by
+  have h1 : r ≤ k := Q.le_of_le k hk hreach
+  by_contra hne
+  have := hsm r (hBmn.trans Q.ge_min) (lt_of_le_of_ne h1 hne)
+  exact absurd Q.reach (not_le.mpr this)
 
 variable {f : Int → ℝ} {B mn : Int} {p : ℝ}
 
@@ -68,8 +83,8 @@ private theorem pow_bracket (n m : Nat) : (2:Int) ^ (n + 1) + 2 ^ m ≤ 2 ^ (max
 
 /-- GENERIC THEOREM (explicit fuel).  `S`: the cdf is non-decreasing and 0 below `mn`; some `K ≤ 2^(n+1)`
     has `cdf K ≥ p`; `mn ≥ -2^m`; the generated loops' fuel `loopFuel` exceeds `n` (doubling) and
-    `max (n+1) m + 1` (bisection).  Then for `0 < p < 1` the default `inverse_cdf` returns a
-    `p`-quantile in the sense of `IsDefaultQuantile`. -/
+    `max (n+1) m + 1` (bisection).  Then for `0 < p < 1` the default `inverse_cdf` returns the
+    smallest `k` with `cdf k ≥ p` (`IsDefaultQuantile`), plateaus included. -/
 theorem default_inverse_cdf_quantile_fuel (S : StepCdf f B mn) (mx K : Int) (n m : Nat)
     (hB2 : B ≤ 2) (hBmn : B ≤ mn) (hmn : -2 ^ m ≤ mn) (hKB : B ≤ K) (hK : p ≤ f K) (hK2 : K ≤ 2 ^ (n + 1))
     (hfuel1 : n < loopFuel) (hfuel2 : max (n + 1) m + 1 < loopFuel) (hp0 : 0 < p) (hp1 : p < 1) :
@@ -78,7 +93,7 @@ theorem default_inverse_cdf_quantile_fuel (S : StepCdf f B mn) (mx K : Int) (n m
   by_cases h0 : p ≤ f mn
   · rw [if_pos h0]
     have hb : ∀ j, B ≤ j → j < mn → f j < p := fun j hj hjm => by rw [S.below j hj hjm]; exact hp0
-    refine ⟨le_rfl, h0, fun j hj hjm => (hb j hj hjm).le, Or.inl hb, fun K' hK' hlt => ?_⟩
+    refine ⟨le_rfl, h0, hb, fun K' hK' hle => ?_⟩
     by_contra hc
     have := S.below K' hK' (not_le.mp hc)
     linarith
@@ -96,22 +111,14 @@ theorem default_inverse_cdf_quantile_fuel (S : StepCdf f B mn) (mx K : Int) (n m
       have := pow_bracket n m
       have h3 : r ≤ 2 ^ (n + 1) := by rw [pow_succ]; linarith
       linarith
-    obtain ⟨k, ek, k1, k2, k3, k4⟩ := search_quantile (z := p) S.mono (max (n + 1) m + 1) hfuel2 mn r hBmn hlt
+    obtain ⟨k, ek, k1, k2, k3, k4, k5⟩ := search_quantile (z := p) S.mono (max (n + 1) m + 1) hfuel2 mn r hBmn hlt
       (not_le.mp h0) r1 hw
     rw [ek]
     show IsDefaultQuantile f B mn p k
-    have hbefore : ∀ j, B ≤ j → j < k → f j ≤ p := by
-      intro j hj hjk
-      rcases k4 with k4 | k4
-      · exact ((S.mono j (k - 1) hj (by omega)).trans_lt k4).le
-      · rw [← k4]; exact S.mono j k hj hjk.le
-    refine ⟨k1.le, k3, hbefore, ?_, fun K' hK' hlt' => ?_⟩
-    · rcases k4 with k4 | k4
-      · exact Or.inl fun j hj hjk => (S.mono j (k - 1) hj (by omega)).trans_lt k4
-      · exact Or.inr k4
-    · by_contra hc
-      have := hbefore K' hK' (not_le.mp hc)
-      linarith
+    refine ⟨k1.le, k3, k5, fun K' hK' hle' => ?_⟩
+    by_contra hc
+    have := k5 K' hK' (not_le.mp hc)
+    linarith
 
 /-- The fuel of the generated loops (`loopFuel = 20000`) is enough for every `u64` / `i64`
     argument type: quantile `≤ 2^64` needs 64 doublings, the bracket `[min, ub]` with `min ≥ -2^64`
@@ -134,40 +141,33 @@ theorem default_inverse_cdf_quantile_u64 (S : StepCdf f B mn) (mx K : Int)
     IsDefaultQuantile f B mn p (dinv f mn mx p) :=
   default_inverse_cdf_quantile S mx K hB2 hBmn hmn hKB hK hK2 hp0 hp1
 
-/-- Smallest-`k` statement: if moreover the cdf has NO PLATEAU AT LEVEL `p` (whenever `cdf k = p`
-    the previous value is strictly smaller — plateaus at any other level are allowed), the default
-    `inverse_cdf p` is the smallest `k` with `cdf k ≥ p`, and lies in `[mn, K]`. -/
+/-- HEADLINE.  Smallest-`k` statement for EVERY non-decreasing step cdf, plateaus included (also a
+    plateau exactly at level `p`): the default `inverse_cdf p`, `0 < p < 1`, is the smallest `k` with
+    `cdf k ≥ p`, and lies in `[mn, K]` for every `K` that reaches `p`. -/
 theorem default_inverse_cdf_smallest (S : StepCdf f B mn) (mx K : Int)
-    (hnoflat : ∀ k, B < k → f k = p → f (k - 1) < p)
-    (hB2 : B ≤ 2) (hBmn : B ≤ mn) (hmn : -2 ^ 64 ≤ mn) (hKB : B ≤ K) (hK : p ≤ f K) (hK2 : K ≤ 2 ^ 64)
-    (hp0 : 0 < p) (hp1 : p < 1) :
-    p ≤ f (dinv f mn mx p) ∧ (∀ j, B ≤ j → j < dinv f mn mx p → f j < p) ∧
-      mn ≤ dinv f mn mx p ∧ dinv f mn mx p ≤ K := by
-  have Q := default_inverse_cdf_quantile S mx K hB2 hBmn hmn hKB hK hK2 hp0 hp1
-  have hsm : ∀ j, B ≤ j → j < dinv f mn mx p → f j < p := by
-    rcases Q.smallest_or_exact with h | h
-    · exact h
-    · intro j hj hjr
-      have := hnoflat _ (by omega) h
-      exact (S.mono j _ hj (by omega)).trans_lt this
-  refine ⟨Q.reach, hsm, Q.ge_min, ?_⟩
-  by_contra hc
-  have := hsm K hKB (not_le.mp hc)
-  linarith
-
-/-- `_partial` (the hypothesis excludes plateaus inside the support): for a cdf that is STRICTLY
-    increasing wherever its value is strictly between 0 and 1, the default `inverse_cdf p`,
-    `0 < p < 1`, is the smallest `k` with `cdf k ≥ p`.  Not covered: cdfs with a plateau at level
-    `p` — there the statement is false, see `default_inverse_cdf_smallest_plateau_counterexample`. -/
-theorem default_inverse_cdf_smallest_partial (S : StepCdf f B mn) (mx K : Int)
-    (hstrict : ∀ k, B < k → 0 < f k → f k < 1 → f (k - 1) < f k)
     (hB2 : B ≤ 2) (hBmn : B ≤ mn) (hmn : -2 ^ 64 ≤ mn) (hKB : B ≤ K) (hK : p ≤ f K) (hK2 : K ≤ 2 ^ 64)
     (hp0 : 0 < p) (hp1 : p < 1) :
     p ≤ f (dinv f mn mx p) ∧ (∀ j, B ≤ j → j < dinv f mn mx p → f j < p) ∧
       mn ≤ dinv f mn mx p ∧ dinv f mn mx p ≤ K :=
-  default_inverse_cdf_smallest S mx K
-    (fun k hk e => by have := hstrict k hk (by rw [e]; exact hp0) (by rw [e]; exact hp1); rw [e] at this; exact this)
-    hB2 hBmn hmn hKB hK hK2 hp0 hp1
+  have Q := default_inverse_cdf_quantile S mx K hB2 hBmn hmn hKB hK hK2 hp0 hp1
+  ⟨Q.reach, Q.smallest, Q.ge_min, Q.le_of_le K hKB hK⟩
+
+/-- …equivalently: whenever `k` is the smallest argument (`≥ B`) whose cdf reaches `p`, the default
+    `inverse_cdf p` IS `k`. -/
+theorem default_inverse_cdf_eq_of_smallest (S : StepCdf f B mn) (mx k : Int)
+    (hB2 : B ≤ 2) (hBmn : B ≤ mn) (hmn : -2 ^ 64 ≤ mn) (hkB : B ≤ k) (hk : p ≤ f k) (hk2 : k ≤ 2 ^ 64)
+    (hsm : ∀ j, B ≤ j → j < k → f j < p) (hp0 : 0 < p) (hp1 : p < 1) :
+    dinv f mn mx p = k :=
+  (default_inverse_cdf_quantile S mx k hB2 hBmn hmn hkB hk hk2 hp0 hp1).eq_of_smallest hBmn hkB hk hsm
+
+/-- the default `inverse_cdf` is non-decreasing in `p` on `(0,1)` (for every non-decreasing step cdf) -/
+theorem default_inverse_cdf_mono {q : ℝ} (S : StepCdf f B mn) (mx K : Int)
+    (hB2 : B ≤ 2) (hBmn : B ≤ mn) (hmn : -2 ^ 64 ≤ mn) (hKB : B ≤ K) (hK : q ≤ f K) (hK2 : K ≤ 2 ^ 64)
+    (hp0 : 0 < p) (hpq : p ≤ q) (hq1 : q < 1) :
+    dinv f mn mx p ≤ dinv f mn mx q := by
+  have Qq := default_inverse_cdf_quantile S mx K hB2 hBmn hmn hKB hK hK2 (hp0.trans_le hpq) hq1
+  have Qp := default_inverse_cdf_quantile S mx K hB2 hBmn hmn hKB (hpq.trans hK) hK2 hp0 (hpq.trans_lt hq1)
+  exact Qp.le_of_le _ (hBmn.trans Qq.ge_min) (hpq.trans Qq.reach)
 
 /-- the value formed by the doubling loop is `2` or at most `2K − 2` (model integers are unbounded;
     for a `u64` argument type this stays `< 2^64` exactly when the quantile `K ≤ 2^63`) -/
@@ -210,7 +210,7 @@ theorem default_inverse_cdf_unreachable_hangs (mx : Int) (hlow : ∀ k, f k < p)
   unfold dinv
   rw [if_neg (not_le.mpr (hlow mn)), if_neg hp1.ne, if_neg (not_not.mpr ⟨hp0, hp1.le⟩), dloop_hang hlow]
 
-/-! ### the plateau counterexample -/
+/-! ### the plateau example (formerly a counterexample) -/
 
 /-- step cdf on the lattice `0,1,2,3` with levels `1/4, 1/2, 1/2, 1` (plateau `{1,2}` at level `1/2`) -/
 noncomputable def plateauCdf (k : Int) : ℝ :=
@@ -225,55 +225,53 @@ theorem plateauCdf_stepCdf (B : Int) : StepCdf plateauCdf B 0 := by
     unfold plateauCdf; rw [if_pos hk]
 
 /-- the GENERATED `integral_bisection_search` on the plateau: asked for the smallest `k ∈ (0,2]` with
-    `f k ≥ 1/2` it answers `2`, although `f 1 = 1/2` -/
-theorem integral_bisection_search_plateau_counterexample :
-    D.internal.integral_bisection_search (α := ℝ) plateauCdf (1 / 2) 0 2 = some 2 ∧
-      (1 / 2 : ℝ) ≤ plateauCdf 1 := by
+    `f k ≥ 1/2` it answers `1`, the first point of the plateau `f 1 = f 2 = 1/2` (with the former
+    early exit `f(ub) == z` it answered `2`) -/
+theorem integral_bisection_search_plateau :
+    D.internal.integral_bisection_search (α := ℝ) plateauCdf (1 / 2) 0 2 = some 1 ∧
+      (1 / 2 : ℝ) ≤ plateauCdf 1 ∧ plateauCdf 1 = plateauCdf 2 := by
   have f0 : plateauCdf 0 = 1 / 4 := by unfold plateauCdf; norm_num
   have f1 : plateauCdf 1 = 1 / 2 := by unfold plateauCdf; norm_num
   have f2 : plateauCdf 2 = 1 / 2 := by unfold plateauCdf; norm_num
-  refine ⟨?_, by rw [f1]⟩
-  unfold D.internal.integral_bisection_search
-  rw [if_neg (by rw [f0, f2]; norm_num)]
-  dsimp only
-  rw [show ((1:Int) + 1) = 2 by norm_num, show loopFuel = 19999 + 1 by rfl,
-    search_step_mono (B := 0) (plateauCdf_stepCdf 0).mono 19999 0 2 (by norm_num) le_rfl
-      (by rw [f0]; norm_num) (by rw [f2]),
-    if_pos (Or.inl f2)]
+  refine ⟨?_, by rw [f1], by rw [f1, f2]⟩
+  obtain ⟨k, ek, k1, k2, k3, k4, _⟩ := search_quantile (z := (1 / 2 : ℝ)) (B := 0) (plateauCdf_stepCdf 0).mono 1
+    (by unfold loopFuel; norm_num) 0 2 le_rfl (by norm_num) (by rw [f0]; norm_num) (by rw [f2]) (by norm_num)
+  rw [ek]
+  have : k = 1 := by
+    by_contra hne
+    have hk2 : k = 2 := by omega
+    rw [hk2, show (2:Int) - 1 = 1 by norm_num, f1] at k4
+    exact lt_irrefl _ k4
+  rw [this]
 
-/-- COUNTEREXAMPLE to "the default returns the smallest `k` with `cdf k ≥ p`" for non-decreasing
-    step cdfs with a plateau at level `p`: all premises of `default_inverse_cdf_quantile` hold
-    (`StepCdf`, `0 < p < 1`, `K = 1` reaches `p`), the result is `2`, yet `1 < 2` already has
-    `cdf 1 ≥ p`. -/
-theorem default_inverse_cdf_smallest_plateau_counterexample :
-    StepCdf plateauCdf 0 0 ∧ (0:ℝ) < 1 / 2 ∧ (1 / 2 : ℝ) < 1 ∧
-    dinv plateauCdf 0 3 (1 / 2) = 2 ∧
-    ¬ (∀ j : Int, 0 ≤ j → j < dinv plateauCdf 0 3 (1 / 2) → plateauCdf j < 1 / 2) := by
+/-- The former COUNTEREXAMPLE input, now a positive instance: for the step cdf with a plateau at
+    level `p = 1/2` all premises of `default_inverse_cdf_quantile` hold (`StepCdf`, `0 < p < 1`,
+    `K = 1` reaches `p`), and the default `inverse_cdf` returns `1`, the smallest `k` with
+    `cdf k ≥ p` (not `2`, the later plateau point the old early exit produced). -/
+theorem default_inverse_cdf_smallest_plateau :
+    StepCdf plateauCdf 0 0 ∧ (0:ℝ) < 1 / 2 ∧ (1 / 2 : ℝ) < 1 ∧ plateauCdf 1 = 1 / 2 ∧ plateauCdf 2 = 1 / 2 ∧
+    dinv plateauCdf 0 3 (1 / 2) = 1 ∧
+    (∀ j : Int, 0 ≤ j → j < dinv plateauCdf 0 3 (1 / 2) → plateauCdf j < 1 / 2) := by
   have f0 : plateauCdf 0 = 1 / 4 := by unfold plateauCdf; norm_num
   have f1 : plateauCdf 1 = 1 / 2 := by unfold plateauCdf; norm_num
   have f2 : plateauCdf 2 = 1 / 2 := by unfold plateauCdf; norm_num
-  have hd : dinv plateauCdf 0 3 (1 / 2) = 2 := by
-    unfold dinv
-    rw [if_neg (by rw [f0]; norm_num), if_neg (by norm_num), if_neg (by norm_num),
-      show loopFuel = 19999 + 1 by rfl, dloop, if_neg (by rw [f2]; norm_num)]
-    dsimp only
-    rw [integral_bisection_search_plateau_counterexample.1]
-    rfl
-  refine ⟨plateauCdf_stepCdf 0, by norm_num, by norm_num, hd, ?_⟩
+  have hsm : ∀ j : Int, 0 ≤ j → j < 1 → plateauCdf j < 1 / 2 := by
+    intro j hj hj1
+    have : j = 0 := by omega
+    rw [this, f0]; norm_num
+  have hd : dinv plateauCdf 0 3 (1 / 2) = 1 :=
+    default_inverse_cdf_eq_of_smallest (plateauCdf_stepCdf 0) 3 1 (by norm_num) le_rfl (by norm_num)
+      (by norm_num) (by rw [f1]) (by norm_num) hsm (by norm_num) (by norm_num)
+  refine ⟨plateauCdf_stepCdf 0, by norm_num, by norm_num, f1, f2, hd, ?_⟩
   rw [hd]
-  intro h
-  have := h 1 (by norm_num) (by norm_num)
-  rw [f1] at this
-  exact lt_irrefl _ this
+  exact hsm
 
-/-- non-vacuity of the generic theorems: the plateau cdf itself satisfies every premise at `p = 1/3`
-    (no plateau at that level), and there the default does return the smallest `k`, namely 1 -/
-example : p = 1 / 3 → (StepCdf plateauCdf 0 0 ∧ (∀ k, (0:Int) < k → plateauCdf k = p → plateauCdf (k - 1) < p) ∧
+/-- non-vacuity of the generic theorems: the plateau cdf satisfies every premise both at `p = 1/3`
+    (no plateau at that level) and at `p = 1/2` (the plateau level) -/
+example : (p = 1 / 3 ∨ p = 1 / 2) → (StepCdf plateauCdf 0 0 ∧ 0 < p ∧ p < 1 ∧
     p ≤ plateauCdf 1 ∧ (1:Int) ≤ 2 ^ 64) := by
-  rintro rfl
-  refine ⟨plateauCdf_stepCdf 0, fun k hk e => ?_, by unfold plateauCdf; norm_num, by norm_num⟩
-  exfalso
-  unfold plateauCdf at e
-  split_ifs at e <;> norm_num at e
+  have f1 : plateauCdf 1 = 1 / 2 := by unfold plateauCdf; norm_num
+  rintro (rfl | rfl) <;>
+    exact ⟨plateauCdf_stepCdf 0, by norm_num, by norm_num, by linarith [f1], by norm_num⟩
 
 end Statrs.Props.C05
